@@ -84,6 +84,8 @@ pub enum UiOp {
     NewInjector(usize),
     CloneInjector(usize, usize),
     DropInjector(usize),
+    /// Nucleo::update_config (takes the worker lock), followed by an observation
+    UpdateConfig,
     /// start writer thread k (its script uses the given handle, which is moved into the thread)
     StartWriter(usize),
     JoinWriters,
@@ -318,6 +320,15 @@ pub fn run_scenario(sc: &Scenario, policy: Policy, run_id: u64, lines: &mut Vec<
                 sched.user("joined", String::new());
             }
             UiOp::Dump => ui_dump(&nucleo, &cx),
+            UiOp::UpdateConfig => {
+                sched.user("call", "\"api\":\"update_config\"".to_string());
+                // waits for the worker lock in uninstrumented code
+                sched.thread_blocked(true);
+                nucleo.update_config(Config::DEFAULT);
+                sched.thread_blocked(false);
+                sched.user("ret", "\"api\":\"update_config\"".to_string());
+                ui_dump(&nucleo, &cx);
+            }
             UiOp::WaitQuiet => {
                 sched.wait_quiet(Duration::from_millis(4));
             }
@@ -440,6 +451,9 @@ pub fn scenarios(thorough: bool, rng: &mut StdRng) -> Vec<Scenario> {
       vec![(1, vec![Extend(vec![0, 1, 2])])]);
     // the matcher is dropped right after a restart while the run spawned by the last tick is still in flight: drop has
     // to wait for that run (it still owns the old stream) - every item is destroyed by the time drop returns
+    // a new matcher configuration between a restart and the next tick (and in the other states) leaves the handle count alone
+    s("restart-update-config", 1, 1, vec![NewInjector(1), UpdateConfig, Tick(0), UpdateConfig, Restart(false), UpdateConfig, NewInjector(2), UpdateConfig, Tick(10), UpdateConfig, Restart(true), UpdateConfig,
+        DropInjector(2), UpdateConfig, Tick(10), Dump], vec![]);
     s("restart-then-drop-during-run", 1, 1, vec![NewInjector(1), StartWriter(0), JoinWriters, Reparse(1), Rule("pool", "run.begin", "main", "drop.lock"), Tick(0), DropInjector(1), Restart(false)],
       vec![(1, vec![Extend(vec![0, 1, 2]), Push(3)])]);
     s("restart-clear-then-drop-during-run", 2, 1, vec![NewInjector(1), StartWriter(0), JoinWriters, Rule("pool", "run.begin", "main", "drop.lock"), Tick(0), DropInjector(1), Restart(true)],
